@@ -226,8 +226,8 @@ def justified : List (String × Nat × String) := [
   ("x/metrix/keeper.Keeper.updateTelemetry#val.ExecutionTime.Int64()", 1, "median of block counts, each <= block height"),
   ("x/metrix/keeper.Keeper.updateTelemetry#val.Fee.Int64()", 1, "never set to anything but zero on the pinned tree"),
   ("x/paloma/keeper.Keeper.CheckChainVersion#panic(…)", 1, "the deliberate version gate the property exempts"),
-  ("x/valset/keeper.Keeper.isNewSnapshotWorthy#sdkmath.LegacyNewDecFromInt(sortedCurrent[i].ShareCount).QuoInt(currentSnapshot.TotalShares)", 1, "only evaluated for a non-empty snapshot whose total is the sum of positive bonded stakes"),
-  ("x/valset/keeper.Keeper.isNewSnapshotWorthy#sdkmath.LegacyNewDecFromInt(sortedNew[i].ShareCount).QuoInt(newSnapshot.TotalShares)", 1, "only evaluated for a non-empty snapshot whose total is the sum of positive bonded stakes"),
+  ("x/valset/keeper.Keeper.isNewSnapshotWorthy#sdkmath.LegacyNewDecFromInt(sortedCurrent[i].ShareCount).QuoInt(currentSnapshot.TotalShares)", 1, "no division by zero on well-formed histories: proved in C10 (`Paloma.Valset.build_never_panics`, `stored_total_pos`; the model makes the Go panic an explicit outcome `buildPanics`) under the named SDK assumption `StakingWF` (bonded => tokens > 0: TriggerSnapshotBuild is only called from valset EndBlock, which app.go orders after staking EndBlock, where only validators with consensus power >= 1 stay bonded); without it the panic is reachable in the model (`build_panics_without_assumption`)"),
+  ("x/valset/keeper.Keeper.isNewSnapshotWorthy#sdkmath.LegacyNewDecFromInt(sortedNew[i].ShareCount).QuoInt(newSnapshot.TotalShares)", 1, "no division by zero on well-formed histories: proved in C10 (`Paloma.Valset.build_never_panics`, `stored_total_pos`; the model makes the Go panic an explicit outcome `buildPanics`) under the named SDK assumption `StakingWF` (bonded => tokens > 0: TriggerSnapshotBuild is only called from valset EndBlock, which app.go orders after staking EndBlock, where only validators with consensus power >= 1 stay bonded); without it the panic is reachable in the model (`build_panics_without_assumption`)"),
   ("x/valset/keeper.Keeper.isNewSnapshotWorthy#percentageCurrent.Sub(percentageNow).Abs().MustFloat64", 1, "a difference of two fractions in [0,1]"),
   ("x/valset/keeper.Keeper.isNewSnapshotWorthy#sortedNew[i]", 3, "i < len(sortedCurrent), and the function returned earlier unless both snapshots hold the same number of validators"),
   ("x/evm/keeper.Keeper.routerAttester#consensusMsg.(*types.Message)", 1, "the turnstone queue only stores *types.Message (WithStaticTypeCheck at PutMessageInQueue)"),
